@@ -530,12 +530,22 @@ class ExprMixin:
             if d is not None and isinstance(d[0], InstObj):
                 name = {ast.Lt: "__lt__", ast.LtE: "__le__", ast.Gt: "__gt__", ast.GtE: "__ge__", ast.Eq: "__eq__", ast.NotEq: "__ne__"}.get(type(op))
                 m = d[0].cls.lookup(name) if name else None
+                invert = False
+                if m is None and name == "__ne__":
+                    m = d[0].cls.lookup("__eq__")  # default __ne__ inverts __eq__
+                    invert = m is not None
                 if m is not None:
                     res = self.call_function(FuncV(fi=m, node=m.node, self_val=l, module=m.module), [r], {}, node, state)
-                    if isinstance(res, Bool):
+                    if isinstance(res, Bottom):
                         return res
-                    t = self.truth(state, res) if not isinstance(res, Bottom) else None
-                    return Bool(t)
+                    if not isinstance(res, Bool):
+                        res = Bool(self.truth(state, res))
+                    if invert:
+                        res = replace(res, tv=None if res.tv is None else not res.tv, sym=None)
+                    if name in ("__eq__", "__ne__") and self.value_equal_operand(r, state):
+                        # two in-program objects compared by their class's value equality
+                        res = replace(res, prov=res.prov | {"VALEQ"})
+                    return res
         if isinstance(op, (ast.Eq, ast.NotEq)):
             tv = None
             if isinstance(l, Str) and isinstance(r, Str) and l.const is not None and r.const is not None:
@@ -548,7 +558,10 @@ class ExprMixin:
             if tv is not None and isinstance(op, ast.NotEq):
                 tv = not tv
             self.hook("eq-other", node, l, r)
-            return Bool(tv, getattr(l, "prov", frozenset()) | getattr(r, "prov", frozenset()))
+            pv = getattr(l, "prov", frozenset()) | getattr(r, "prov", frozenset())
+            if tv is None and self.value_equal_operand(l, state) and self.value_equal_operand(r, state):
+                pv = pv | {"VALEQ"}  # containers of in-program objects compare element-wise by value equality
+            return Bool(tv, pv)
         if isinstance(l, (Top, Union)) or isinstance(r, (Top, Union)):
             return Bool(None, getattr(l, "prov", frozenset()) | getattr(r, "prov", frozenset()))
         self.hook("order-other", node, l, r)
@@ -556,6 +569,27 @@ class ExprMixin:
             return Bool(None)
         self.do_raise(state, "TypeError", node, implicit=True, mro=("TypeError", "Exception"))
         return Bottom()
+
+    def value_equal_operand(self, v: Val, state: State, depth: int = 0) -> bool:
+        """v is an in-program object whose class defines __eq__ (value equality), or a container of such objects."""
+        if depth > 3:
+            return False
+        if isinstance(v, Union):
+            return any(self.value_equal_operand(o, state, depth + 1) for o in v.opts)
+        if isinstance(v, TupleV):
+            return any(self.value_equal_operand(x, state, depth + 1) for x in v.items)
+        if isinstance(v, Seq):
+            return self.value_equal_operand(v.elem, state, depth + 1)
+        if isinstance(v, Ptr):
+            d = self.deref(state, v)
+            if d is None:
+                return False
+            o = d[0]
+            if isinstance(o, InstObj):
+                return o.cls.lookup("__eq__") is not None
+            if isinstance(o, ListObj):
+                return self.value_equal_operand(o.seq.elem, state, depth + 1) or any(self.value_equal_operand(x, state, depth + 1) for x in (o.seq.fixed or ())[:4])
+        return False
 
     # ==================================================================================
     # attributes
